@@ -301,18 +301,16 @@ Lemma from_feature_facts f h :
   let a := from_feature f h in
   a_kind a = fkind f /\ a_ns a = fstart f /\ a_ne a = fend f /\ a_group a = 0 /\ a_height a = h /\
   a_prod a = fprod f /\
-  (fcore f = None -> a_start a = fstart f /\ a_end a = fend f) /\
-  (forall core, fcore f = Some core -> fkind f = K_Proto ->
-                a_start a = loc_fstart core /\ a_end a = loc_fend core).
+  (proto_core f = None -> a_start a = fstart f /\ a_end a = fend f) /\
+  (forall core, proto_core f = Some core -> a_start a = loc_fstart core /\ a_end a = loc_fend core).
 Proof.
-  unfold from_feature. destruct (fcore f) as [core|] eqn:E.
+  unfold from_feature, proto_core. destruct (fcore f) as [core|] eqn:E.
   - destruct (fkind f =? K_Proto) eqn:K; cbn [a_kind a_ns a_ne a_group a_height a_prod a_start a_end].
     + repeat (split; [reflexivity|]). split; [discriminate|].
-      intros core0 H _. inversion H; subst. split; reflexivity.
-    + repeat (split; [reflexivity|]). split; [discriminate|].
-      intros core0 _ H0. rewrite H0 in K. discriminate.
-  - cbn [a_kind a_ns a_ne a_group a_height a_prod a_start a_end].
-    repeat (split; [reflexivity|]). split; [intros _; split; reflexivity|discriminate].
+      intros core0 H. inversion H; subst. split; reflexivity.
+    + repeat (split; [reflexivity|]). split; [intros _; split; reflexivity|discriminate].
+  - destruct (fkind f =? K_Proto); cbn [a_kind a_ns a_ne a_group a_height a_prod a_start a_end];
+      repeat (split; [reflexivity|]); (split; [intros _; split; reflexivity|discriminate]).
 Qed.
 
 (* what adjust_cross_origin_area does to the extent, whatever the core branch *)
@@ -321,9 +319,9 @@ Lemma adjust_extents a f rc L g a' oe :
   adjust_cross_origin_area a f rc L g = Ok (a', oe) ->
   a_ns a' = a_ns a /\ a_kind a' = a_kind a /\ a_height a' = a_height a /\
   (rc = true -> oe = None /\ a_group a' = 0 /\
-                a_ne a' = (match fcore f with None => a_end a | Some _ => a_ne a end) + L) /\
+                a_ne a' = (match proto_core f with None => a_end a | Some _ => a_ne a end) + L) /\
   (rc = false -> exists e, oe = Some e /\ a_ne a' = L /\ a_ns e = 0 /\
-                 a_ne e = (match fcore f with None => fend f | Some _ => a_ne a end) /\
+                 a_ne e = (match proto_core f with None => fend f | Some _ => a_ne a end) /\
                  a_kind e = a_kind a /\ a_height e = a_height a /\ a_group a' = g /\ a_group e = g).
 Proof.
   intros Hg H. unfold adjust_cross_origin_area in H.
@@ -331,10 +329,10 @@ Proof.
   assert (Hwg : with_group a g = set_group a g).
   { unfold with_group. rewrite Hg. reflexivity. }
   rewrite Hwg in H.
-  destruct (fcore f) as [core|].
+  destruct (proto_core f) as [core|].
   - destruct (loc_fend core <? loc_fstart core).
     + destruct rc; inversion H; subst; cbn; repeat split; try discriminate; try (intros; eexists; repeat split; reflexivity); auto.
-    + destruct (L - loc_fstart core <? loc_fend core).
+    + destruct (fstart f <=? loc_fstart core).
       * destruct rc; inversion H; subst; cbn; repeat split; try discriminate; try (intros; eexists; repeat split; reflexivity); auto.
       * destruct rc; inversion H; subst; cbn; repeat split; try discriminate; try (intros; eexists; repeat split; reflexivity); auto.
   - destruct rc; inversion H; subst; cbn; repeat split; try discriminate; try (intros; eexists; repeat split; reflexivity); auto.
@@ -358,10 +356,10 @@ Proof.
   destruct (adjust_extents _ _ _ _ _ _ _ Fg H) as (Hns & Hk & Hh & Htrue & Hfalse).
   split.
   - intros Hrc. destruct (Htrue Hrc) as (Hoe & Hgr & Hne). repeat split; try assumption; try congruence.
-    rewrite Hne. destruct (fcore f) eqn:E; [congruence|]. destruct (Fnone eq_refl) as (_ & He). congruence.
+    rewrite Hne. destruct (proto_core f) eqn:E; [congruence|]. destruct (Fnone eq_refl) as (_ & He). congruence.
   - intros Hrc. destruct (Hfalse Hrc) as (e & Hoe & Hne & Hens & Hene & Hek & Heh & Hga & Hge).
     exists e. repeat split; try congruence.
-    rewrite Hene. destruct (fcore f); congruence.
+    rewrite Hene. destruct (proto_core f); congruence.
 Qed.
 
 (* ---------- extents lie inside the announced range ---------- *)
@@ -440,7 +438,7 @@ Proof.
     subst oe. inversion H; subst st'. cbn [fst].
     exists [a'; e]. split; [reflexivity|]. split.
     + assert (Hene' : a_ne e = pe q).
-      { rewrite Hene. destruct (fcore f); [rewrite Fne, Pe; reflexivity|unfold fend; rewrite Ef; exact Pe]. }
+      { rewrite Hene. destruct (proto_core f); [rewrite Fne, Pe; reflexivity|unfold fend; rewrite Ef; exact Pe]. }
       constructor; [|constructor; [|constructor]].
       * unfold area_ok, extent_ok, range0. rewrite Rb, Rls, Rle. cbn [fst snd].
         rewrite Hns, Hne, Fns, Ps. repeat split; try congruence. lia.
@@ -488,24 +486,24 @@ Proof.
     exists [a']. split; [reflexivity|]. split; [|left; reflexivity].
     constructor; [|constructor].
     assert (Hne' : a_ne a' = pe q + N).
-    { rewrite Hne. destruct (fcore f) eqn:Ec; [rewrite Fne, Pe; reflexivity|].
+    { rewrite Hne. destruct (proto_core f) eqn:Ec; [rewrite Fne, Pe; reflexivity|].
       destruct (Fnone eq_refl) as (_ & He). rewrite He, Pe. reflexivity. }
     unfold contains in Hcont. cbn [forallb existsb] in Hcont. unfold part_contains in Hcont.
     unfold area_ok, extent_ok, range0. rewrite Rb, Rs, Rlast. cbn [fst snd].
     rewrite Hns, Hne', Fns, Ps. repeat split; try congruence. lia.
 Qed.
 
-(* ---------- core inside the extent (protoclusters), start/end = extent (sub-regions) ---------- *)
+(* ---------- core inside the extent (protoclusters), start/end = extent (sub-regions, candidates) ---------- *)
 Lemma adjust_chain a f rc L g a' oe :
   a_group a = 0 -> a_ne a < a_ns a -> a_ns a <= L -> 0 <= a_ne a ->
-  match fcore f with
+  match proto_core f with
   | None => a_start a = a_ns a /\ a_end a = a_ne a /\ fend f = a_ne a
   | Some core =>
     let cs := loc_fstart core in let ce := loc_fend core in
     a_start a = cs /\ a_end a = ce /\
     ((ce < cs /\ a_ns a <= cs /\ cs <= L /\ 0 <= ce /\ ce <= a_ne a) \/
-     (cs <= ce /\ L - cs < ce /\ a_ns a <= cs /\ ce <= L) \/
-     (cs <= ce /\ ~ (L - cs < ce) /\ 0 <= cs /\ ce <= a_ne a))
+     (cs <= ce /\ fstart f <= cs /\ a_ns a <= cs /\ ce <= L) \/
+     (cs <= ce /\ ~ (fstart f <= cs) /\ 0 <= cs /\ ce <= a_ne a))
   end ->
   adjust_cross_origin_area a f rc L g = Ok (a', oe) ->
   chain_ok a' = true /\ forall e, oe = Some e -> chain_ok e = true.
@@ -515,11 +513,11 @@ Proof.
   assert (Hwg : with_group a g = set_group a g).
   { unfold with_group. rewrite Hg. reflexivity. }
   rewrite Hwg in H. unfold chain_ok.
-  destruct (fcore f) as [core|].
+  destruct (proto_core f) as [core|].
   - cbv zeta in Hc. destruct Hc as (Hs & He & Hcases).
     destruct (loc_fend core <? loc_fstart core) eqn:B1.
     + destruct rc; inversion H; subst; cbn; (split; [|intros e0 He0; inversion He0; subst; cbn]); lia.
-    + destruct (L - loc_fstart core <? loc_fend core) eqn:B2.
+    + destruct (fstart f <=? loc_fstart core) eqn:B2.
       * destruct rc; inversion H; subst; cbn; (split; [|intros e0 He0; inversion He0; subst; cbn]); lia.
       * destruct rc; inversion H; subst; cbn; (split; [|intros e0 He0; inversion He0; subst; cbn]); lia.
   - destruct Hc as (Hs & He & Hf).
@@ -532,16 +530,23 @@ Definition wf_core_in (N : Z) (f : feat) (core : loc) : Prop :=
    (exists c1 c2, core = [c1; c2] /\ pst c1 = 1 /\ pst c2 = 1 /\ 0 < ps c1 /\ ps c1 < N /\ pe c1 = N /\
                   ps c2 = 0 /\ 0 < pe c2 /\ pe c2 < ps c1 /\ fcrosses f = true)).
 
-(* guard of the chain theorem: a sub-region, or a protocluster whose core lies inside its extent and,
-   when only the neighbourhood crosses the origin, is on the side the heuristic assumes
-   (the complement is the finding class core_side_heuristic; candidate clusters with a simple core
-   are the finding class candidate_end_unshifted) *)
-Definition chain_guard (N : Z) (f : feat) : Prop :=
-  (fkind f = K_Sub /\ fcore f = None) \/
-  (fkind f = K_Proto /\ exists core, fcore f = Some core /\ wf_core_in N f core /\ side_misjudged N f = false).
+(* well-formedness needed by the chain theorem: a protocluster has a core, which lies inside its extent.
+   Nothing is asked of sub-regions and candidate clusters (their start/end ARE the extent).  This is
+   not a guard against a defect any more: the former finding classes core_side_heuristic (side of the
+   core guessed from length - core_start < core_end) and candidate_end_unshifted (candidate clusters
+   sent through the protocluster branches) were repaired in the code. *)
+Definition core_wf (N : Z) (f : feat) : Prop :=
+  fkind f = K_Proto -> exists core, fcore f = Some core /\ wf_core_in N f core.
+
+Lemma proto_core_cases N f : core_wf N f ->
+  proto_core f = None \/ exists core, proto_core f = Some core /\ wf_core_in N f core.
+Proof.
+  unfold core_wf, proto_core. intros H. destruct (fkind f =? K_Proto) eqn:K; [|left; reflexivity].
+  apply Z.eqb_eq in K. destruct (H K) as (core & Hc & Hwf). right. exists core. rewrite Hc. auto.
+Qed.
 
 Lemma from_feature_chain_single N f h p :
-  chain_guard N f -> floc f = [p] -> ps p < pe p ->
+  core_wf N f -> floc f = [p] -> ps p < pe p ->
   let a := from_feature f h in a_ns a <= a_start a /\ a_start a <= a_end a /\ a_end a <= a_ne a.
 Proof.
   intros Hg Ef Hp. cbv zeta.
@@ -549,9 +554,9 @@ Proof.
   destruct F as (Fk & Fns & Fne & Fg & Fh & _ & Fnone & Fcore).
   destruct (loc1_facts p) as (Pb & Ps & Pe & _).
   unfold fstart, fend in *. rewrite Ef in *.
-  destruct Hg as [(_ & Hnone)|(Hk & core & Hcore & (Hcont & Hshape) & _)].
+  destruct (proto_core_cases N f Hg) as [Hnone|(core & Hcore & Hcont & Hshape)].
   - destruct (Fnone Hnone) as (Hs & He). rewrite Hs, He, Fns, Fne, Ps, Pe. lia.
-  - destruct (Fcore core Hcore Hk) as (Hs & He).
+  - destruct (Fcore core Hcore) as (Hs & He).
     destruct Hshape as [(c & Ec & Hc0 & Hc1 & Hc2)|(c1 & c2 & _ & _ & _ & _ & _ & _ & _ & _ & _ & Hcr)].
     + destruct (loc1_facts c) as (_ & Cs & Ce & _). subst core.
       rewrite Ef in Hcont. unfold contains in Hcont. cbn [forallb existsb] in Hcont. unfold part_contains in Hcont.
@@ -560,34 +565,34 @@ Proof.
 Qed.
 
 Lemma crossing_chain_pre N f h p q :
-  chain_guard N f -> floc f = [p; q] -> pst p = 1 -> pst q = 1 -> 0 < ps p -> ps p < N -> pe p = N ->
+  core_wf N f -> floc f = [p; q] -> pst p = 1 -> pst q = 1 -> 0 < ps p -> ps p < N -> pe p = N ->
   ps q = 0 -> 0 < pe q -> pe q < ps p ->
   let a := from_feature f h in
-  match fcore f with
+  match proto_core f with
   | None => a_start a = a_ns a /\ a_end a = a_ne a /\ fend f = a_ne a
   | Some core =>
     let cs := loc_fstart core in let ce := loc_fend core in
     a_start a = cs /\ a_end a = ce /\
     ((ce < cs /\ a_ns a <= cs /\ cs <= N /\ 0 <= ce /\ ce <= a_ne a) \/
-     (cs <= ce /\ N - cs < ce /\ a_ns a <= cs /\ ce <= N) \/
-     (cs <= ce /\ ~ (N - cs < ce) /\ 0 <= cs /\ ce <= a_ne a))
+     (cs <= ce /\ fstart f <= cs /\ a_ns a <= cs /\ ce <= N) \/
+     (cs <= ce /\ ~ (fstart f <= cs) /\ 0 <= cs /\ ce <= a_ne a))
   end.
 Proof.
   intros Hg Ef Ht1 Ht2 Hp0 Hp1 Hp2 Hp3 Hp4 Hp5. cbv zeta.
   pose proof (from_feature_facts f h) as F. cbv zeta in F.
   destruct F as (Fk & Fns & Fne & Fg & Fh & _ & Fnone & Fcore).
   destruct (loc2_facts p q Ht1 Ht2 Hp3 Hp0) as (Pb & Ps & Pe & _).
-  destruct Hg as [(_ & Hnone)|(Hk & core & Hcore & (Hcont & Hshape) & Hside)].
+  destruct (proto_core_cases N f Hg) as [Hnone|(core & Hcore & Hcont & Hshape)].
   - rewrite Hnone. destruct (Fnone Hnone) as (Hs & He). rewrite Hs, He, Fns, Fne. auto.
-  - rewrite Hcore. destruct (Fcore core Hcore Hk) as (Hs & He).
+  - rewrite Hcore. destruct (Fcore core Hcore) as (Hs & He).
     split; [assumption|]. split; [assumption|].
-    rewrite Fns, Fne. unfold side_misjudged, core_simple in Hside. rewrite Hcore in Hside.
+    rewrite Fns, Fne.
     unfold fstart, fend in *. rewrite Ef in *. rewrite Ps, Pe in *.
     unfold contains in Hcont.
     destruct Hshape as [(c & Ec & Hc0 & Hc1 & Hc2)|(c1 & c2 & Ec & Hu1 & Hu2 & Hc0 & Hc1 & Hc2 & Hc3 & Hc4 & Hc5 & _)].
     + destruct (loc1_facts c) as (_ & Cs & Ce & _). subst core. rewrite Cs, Ce in *.
       cbn [forallb existsb] in Hcont. unfold part_contains in Hcont.
-      destruct (N - ps c <? pe c) eqn:B; destruct (ps p <=? ps c) eqn:B'; cbn [xorb] in Hside; lia.
+      destruct (ps p <=? ps c) eqn:B'; lia.
     + destruct (loc2_facts c1 c2 Hu1 Hu2 Hc3 Hc0) as (_ & Cs & Ce & _). subst core. rewrite Cs, Ce in *.
       cbn [forallb existsb] in Hcont. unfold part_contains in Hcont. lia.
 Qed.
@@ -595,7 +600,7 @@ Qed.
 Lemma area_chain_in_extent N circ rloc f h conv grp st' :
   wf_region N rloc -> wf_feat_ring N f -> contains rloc (floc f) = true ->
   (bridges rloc = true \/ fcrosses f = true -> circ = true) ->
-  chain_guard N f ->
+  core_wf N f ->
   add_area_from_feature rloc N (extend_over_origin rloc N circ) h (conv, grp) f = Ok st' ->
   exists added, fst st' = conv ++ added /\ Forall (fun a => chain_ok a = true) added.
 Proof.
@@ -637,10 +642,38 @@ Proof.
     + constructor; [assumption|constructor].
 Qed.
 
-(* ---------- the two finding classes, as refutations of the unguarded chain statement ---------- *)
+(* the two former refutations, now positive: every protocluster whose core lies inside its extent (on
+   either side of the origin), and every candidate cluster (any core) *)
+Lemma proto_chain_in_extent N circ rloc f core h conv grp st' :
+  wf_region N rloc -> wf_feat_ring N f -> contains rloc (floc f) = true ->
+  (bridges rloc = true \/ fcrosses f = true -> circ = true) ->
+  fkind f = K_Proto -> fcore f = Some core -> wf_core_in N f core ->
+  add_area_from_feature rloc N (extend_over_origin rloc N circ) h (conv, grp) f = Ok st' ->
+  exists added, fst st' = conv ++ added /\ Forall (fun a => chain_ok a = true) added.
+Proof.
+  intros Hr Hf Hcont Hguard Hk Hcore Hwf H.
+  eapply area_chain_in_extent; try eassumption.
+  intros _. exists core. split; assumption.
+Qed.
+
+Lemma cand_chain_in_extent N circ rloc f h conv grp st' :
+  wf_region N rloc -> wf_feat_ring N f -> contains rloc (floc f) = true ->
+  (bridges rloc = true \/ fcrosses f = true -> circ = true) ->
+  fkind f = K_Cand ->
+  add_area_from_feature rloc N (extend_over_origin rloc N circ) h (conv, grp) f = Ok st' ->
+  exists added, fst st' = conv ++ added /\ Forall (fun a => chain_ok a = true) added.
+Proof.
+  intros Hr Hf Hcont Hguard Hk H.
+  eapply area_chain_in_extent; try eassumption.
+  intros Hk'. rewrite Hk in Hk'. discriminate.
+Qed.
+
+(* ---------- the witnesses of the two repaired findings (regression) ---------- *)
 Definition witness_region : loc := [mkPart 100 1000 1; mkPart 0 50 1].
 Definition witness_proto : feat :=
   mkFeat 0 K_Proto [mkPart 100 1000 1; mkPart 0 50 1] (Some [mkPart 200 300 1]) false 1.
+Definition witness_proto_mirror : feat :=
+  mkFeat 0 K_Proto [mkPart 900 1000 1; mkPart 0 800 1] (Some [mkPart 600 700 1]) false 1.
 Definition witness_cand : feat :=
   mkFeat 0 K_Cand [mkPart 100 1000 1; mkPart 0 50 1] (Some [mkPart 400 700 1]) false 1.
 
@@ -648,34 +681,6 @@ Lemma witness_region_wf : wf_region 1000 witness_region.
 Proof. right. exists (mkPart 100 1000 1), (mkPart 0 50 1). cbn. repeat split; lia. Qed.
 Lemma witness_feat_wf f : floc f = witness_region -> wf_feat_ring 1000 f.
 Proof. intros E. right. exists (mkPart 100 1000 1), (mkPart 0 50 1). cbn. repeat split; try lia. exact E. Qed.
-
-Lemma core_side_refuted :
-  exists N circ rloc f core st',
-    wf_region N rloc /\ wf_feat_ring N f /\ contains rloc (floc f) = true /\ circ = true /\
-    fkind f = K_Proto /\ fcore f = Some core /\ wf_core_in N f core /\
-    add_area_from_feature rloc N (extend_over_origin rloc N circ) 0 ([], 0) f = Ok st' /\
-    existsb (fun a => negb (chain_ok a)) (fst st') = true.
-Proof.
-  exists 1000, true, witness_region, witness_proto, [mkPart 200 300 1].
-  eexists. split; [exact witness_region_wf|]. split; [apply witness_feat_wf; reflexivity|].
-  split; [vm_compute; reflexivity|]. split; [reflexivity|]. split; [reflexivity|]. split; [reflexivity|].
-  split.
-  - split; [vm_compute; reflexivity|]. left. exists (mkPart 200 300 1). cbn. repeat split; lia.
-  - split; vm_compute; reflexivity.
-Qed.
-
-Lemma candidate_chain_refuted :
-  exists N circ rloc f st',
-    wf_region N rloc /\ wf_feat_ring N f /\ contains rloc (floc f) = true /\ circ = true /\
-    fkind f = K_Cand /\
-    add_area_from_feature rloc N (extend_over_origin rloc N circ) 0 ([], 0) f = Ok st' /\
-    existsb (fun a => negb (chain_ok a)) (fst st') = true.
-Proof.
-  exists 1000, true, witness_region, witness_cand.
-  eexists. split; [exact witness_region_wf|]. split; [apply witness_feat_wf; reflexivity|].
-  split; [vm_compute; reflexivity|]. split; [reflexivity|]. split; [reflexivity|].
-  split; vm_compute; reflexivity.
-Qed.
 
 (* ---------- build_area_rows: every emitted extent in range ---------- *)
 Lemma insert_by_in {A} (lt : A -> A -> bool) x l y : In y (insert_by lt x l) -> y = x \/ In y l.
@@ -785,4 +790,101 @@ Proof.
     cbn [bind] in H; [|discriminate].
   inversion H; subst out.
   eapply add_rows_ext; [exact Hr|exact H3|exact Hst|exact E5].
+Qed.
+
+(* ---------- build_area_rows: start/end of every emitted area inside its extent ---------- *)
+(* (provable for every region since the repair of core_side_heuristic and candidate_end_unshifted) *)
+Definition feat_ok_core (N : Z) (circ : bool) (rloc : loc) (f : feat) : Prop :=
+  feat_ok N circ rloc f /\ core_wf N f.
+
+Definition chn_ok (a : area) : Prop := chain_ok a = true.
+
+Lemma add_row_features_chain N circ rloc h fs : forall st st',
+  wf_region N rloc -> Forall (feat_ok_core N circ rloc) fs -> Forall chn_ok (fst st) ->
+  add_row_features rloc N (extend_over_origin rloc N circ) h st fs = Ok st' ->
+  Forall chn_ok (fst st').
+Proof.
+  induction fs as [|f more IH]; intros st st' Hr Hfs Hst H; cbn [add_row_features] in H.
+  - inversion H; subst. assumption.
+  - inversion Hfs as [|f0 m0 ((Hwf & Hcont & Hg) & Hcore) Hm]; subst.
+    destruct (add_area_from_feature rloc N (extend_over_origin rloc N circ) h st f) as [st1|k] eqn:E;
+      cbn [bind] in H; [|discriminate].
+    eapply IH; [exact Hr|exact Hm| |exact H].
+    destruct st as [conv grp].
+    destruct (area_chain_in_extent N circ rloc f h conv grp st1 Hr Hwf Hcont Hg Hcore E) as (added & Hfst & Hadded).
+    rewrite Hfst. apply Forall_app. split; [exact Hst|exact Hadded].
+Qed.
+
+Lemma add_rows_chain N circ rloc rows : forall h st r,
+  wf_region N rloc -> Forall (fun rw => Forall (feat_ok_core N circ rloc) (r_contents rw)) rows ->
+  Forall chn_ok (fst st) ->
+  add_rows rloc N (extend_over_origin rloc N circ) h st rows = Ok r ->
+  Forall chn_ok (fst (fst r)).
+Proof.
+  induction rows as [|rw more IH]; intros h st r Hr Hrows Hst H; cbn [add_rows] in H.
+  - inversion H; subst. exact Hst.
+  - inversion Hrows as [|r0 m0 Hrw Hm]; subst.
+    destruct (add_row_features rloc N (extend_over_origin rloc N circ) h st (r_contents rw)) as [st1|k] eqn:E;
+      cbn [bind] in H; [|discriminate].
+    eapply IH; [exact Hr|exact Hm| |exact H].
+    eapply add_row_features_chain; eauto.
+Qed.
+
+Lemma rows_pred_ok (P : feat -> Prop) areas len rows :
+  Forall P areas -> pack areas len = Ok rows -> Forall (fun rw => Forall P (r_contents rw)) rows.
+Proof.
+  intros Hall H. apply Forall_forall. intros r Hr. apply Forall_forall. intros y Hy.
+  rewrite Forall_forall in Hall. apply Hall. exact (pack_in areas len rows r y H Hr Hy).
+Qed.
+
+Lemma build_chain_in_extent N circ rloc subs cands protos out :
+  wf_region N rloc ->
+  Forall (feat_ok_core N circ rloc) subs -> Forall (feat_ok_core N circ rloc) cands ->
+  Forall (feat_ok_core N circ rloc) protos ->
+  build_area_rows rloc N circ subs cands protos = Ok out ->
+  Forall (fun a => chain_ok a = true) out.
+Proof.
+  intros Hr Hs Hc Hp H. unfold build_area_rows in H.
+  destruct (pack subs (-1)) as [sub_rows|k] eqn:E1; cbn [bind] in H; [|discriminate].
+  destruct (pack (filter (fun c => nonempty subs || negb (fsingle c)) cands) (-1)) as [cand_rows|k] eqn:E2;
+    cbn [bind] in H; [|discriminate].
+  destruct (pack (unique_protoclusters rloc protos) (-1)) as [proto_rows|k] eqn:E3; cbn [bind] in H; [|discriminate].
+  assert (H1 : Forall (fun rw => Forall (feat_ok_core N circ rloc) (r_contents rw)) sub_rows)
+    by (eapply rows_pred_ok; [exact Hs|exact E1]).
+  assert (H2 : Forall (fun rw => Forall (feat_ok_core N circ rloc) (r_contents rw)) cand_rows).
+  { eapply rows_pred_ok; [|exact E2]. apply Forall_forall. intros x Hx. apply filter_In in Hx.
+    rewrite Forall_forall in Hc. apply Hc. tauto. }
+  assert (H3 : Forall (fun rw => Forall (feat_ok_core N circ rloc) (r_contents rw)) proto_rows).
+  { eapply rows_pred_ok; [|exact E3]. apply Forall_forall. intros x Hx. apply unique_in in Hx.
+    rewrite Forall_forall in Hp. apply Hp. exact Hx. }
+  destruct (add_rows rloc N (extend_over_origin rloc N circ) 0 ([], 0) (cand_rows ++ sub_rows)) as [[st height]|k] eqn:E4;
+    cbn [bind] in H; [|discriminate].
+  assert (Hst : Forall chn_ok (fst st)).
+  { change st with (fst (st, height)). eapply add_rows_chain; [exact Hr| | |exact E4].
+    - apply Forall_app. split; assumption.
+    - constructor. }
+  match type of H with (do r2 <- add_rows _ _ _ ?hh _ _; _) = _ =>
+    destruct (add_rows rloc N (extend_over_origin rloc N circ) hh st proto_rows) as [r2|k] eqn:E5 end;
+    cbn [bind] in H; [|discriminate].
+  inversion H; subst out.
+  eapply add_rows_chain; [exact Hr|exact H3|exact Hst|exact E5].
+Qed.
+
+(* the whole inequality chain of the property at the observation point:
+   range start <= neighbouring_start <= start <= end <= neighbouring_end <= range end *)
+Lemma build_full_chain N circ rloc subs cands protos out :
+  wf_region N rloc ->
+  Forall (feat_ok_core N circ rloc) subs -> Forall (feat_ok_core N circ rloc) cands ->
+  Forall (feat_ok_core N circ rloc) protos ->
+  build_area_rows rloc N circ subs cands protos = Ok out ->
+  Forall (fun a => fst (range0 rloc N) <= a_ns a /\ a_ns a <= a_start a /\ a_start a <= a_end a /\
+                   a_end a <= a_ne a /\ a_ne a <= snd (range0 rloc N)) out.
+Proof.
+  intros Hr Hs Hc Hp H.
+  assert (weaken : forall l, Forall (feat_ok_core N circ rloc) l -> Forall (feat_ok N circ rloc) l).
+  { intros l Hl. eapply Forall_impl; [|exact Hl]. intros a (Ha & _). exact Ha. }
+  pose proof (build_extents_in_range N circ rloc subs cands protos out Hr (weaken _ Hs) (weaken _ Hc) (weaken _ Hp) H) as He.
+  pose proof (build_chain_in_extent N circ rloc subs cands protos out Hr Hs Hc Hp H) as Hch.
+  rewrite Forall_forall in *. intros a Ha. specialize (He a Ha). specialize (Hch a Ha).
+  unfold extent_ok, chain_ok in *. lia.
 Qed.
